@@ -42,3 +42,33 @@ package abi
 //@   ensures (err == nil && len(args) == 1 && typeof(args[0]) == type(string)) ==> bytes(bz) == abiEncString(unbox(args[0], type(string)))
 //@   ensures (err == nil && len(args) == 1 && typeof(args[0]) == type(uint8)) ==> bytes(bz) == abiEncUint(unbox(args[0], type(uint8)))
 //@   ensures err == nil ==> fresh(base(bz))
+
+// ---------------------------------------------------------------------------------------------
+// (helper cpc2, C11) the signed-message structures of the staking precompile
+// ---------------------------------------------------------------------------------------------
+//@ import addresscodec "cosmossdk.io/core/address"
+
+// FromUnpackedStruct re-encodes the ABI-decoded tuple with encoding/json and decodes it into the message: TRUSTED summary
+// (reflection-based codecs); nothing is said about the resulting field values — every clause about a signed message is
+// stated over the fields the message object HAS after this call.
+//@ func (m *StakingMessage) FromUnpackedStruct(v any) (err error)
+//@   assumed
+//@   modifies *m
+//@   panics only_if m == nil
+//@ func (m *WithdrawRewardMessage) FromUnpackedStruct(v any) (err error)
+//@   assumed
+//@   modifies *m
+//@   panics only_if m == nil
+
+// Validate: a valid staking message names one of the three actions, a non-zero delegator, a decodable validator, a POSITIVE
+// amount in the bond denomination, and an old validator exactly for a redelegation.
+//@ func (m StakingMessage) Validate(valAddrCodec addresscodec.Codec, bondDenom string) (err error)
+//@   requires valAddrCodec != nil
+//@   modifies nothing
+//@   ensures[C11.staking_message_valid] err == nil ==> ((m.Action == StakingMessageActionDelegate || m.Action == StakingMessageActionUndelegate || m.Action == StakingMessageActionRedelegate) && m.Delegator != zero(type(common.Address)) && m.Amount != nil && bigval[m.Amount] > 0 && m.Denom == bondDenom)
+//@   panics never
+//@ func (m WithdrawRewardMessage) Validate(valAddrCodec addresscodec.Codec) (err error)
+//@   requires valAddrCodec != nil
+//@   modifies nothing
+//@   ensures[C11.withdraw_message_valid] err == nil ==> m.Delegator != zero(type(common.Address))
+//@   panics never
